@@ -154,6 +154,8 @@ fn check(args: &Args) -> i32 {
         "C02" | "C03" | "C04" | "C05" | "C06" | "C14" | "C15" | "C17" | "C19" => {
             if property == "C19" {
                 parts.push(run_part(&timersim::TimerSim, &cfg("timersim"), &known, &mut verdict));
+                // the timeout layer in its place in the client's stack (redirects below it)
+                parts.push(run_part(&e2e::E2eTimeoutSim, &cfg("e2etimeout"), &known, &mut verdict));
             }
             let sc = poolsim::PoolSim { property: leak(property) };
             parts.push(run_part(&sc, &cfg("poolsim"), &known, &mut verdict));
@@ -276,6 +278,7 @@ fn replay(args: &Args) -> i32 {
         "iosim" => replay_with(&iosim::IoSim, &rf, args.machine),
         "e2esim" => replay_with(&e2e::E2eSim, &rf, args.machine),
         "e2eidle" => replay_with(&e2e::E2eIdleSim, &rf, args.machine),
+        "e2etimeout" => replay_with(&e2e::E2eTimeoutSim, &rf, args.machine),
         "shutdown" => replay_with(&e2e::shutdown::ShutdownSim, &rf, args.machine),
         "sniff" => replay_with(&e2e::sniff::SniffSim, &rf, args.machine),
         "grammar" => replay_with(&e2e::grammar::GrammarSim, &rf, args.machine),
@@ -316,6 +319,7 @@ fn determinism(args: &Args) -> i32 {
         "C18" => determinism_with(&iosim::IoSim, args),
         "C01" => determinism_with(&e2e::E2eSim, args),
         "e2eidle" => determinism_with(&e2e::E2eIdleSim, args),
+        "e2etimeout" => determinism_with(&e2e::E2eTimeoutSim, args),
         "C07" => determinism_with(&e2e::shutdown::ShutdownSim, args),
         "C08" => determinism_with(&e2e::sniff::SniffSim, args),
         "C13" => determinism_with(&e2e::wire::WireSim, args),
